@@ -1,4 +1,5 @@
 import RegressModel
+import Proofs.Lemmas.SafetyBt
 /-!
 # Line-protocol driver
 
@@ -251,8 +252,15 @@ def opRunProg (args : List String) : String :=
     | some st =>
       let r := VM.runProgLine exec kind prog hay st 20000000
       -- a reported well-formedness failure of the dumped program is part of the answer
+      -- the decidable hypotheses of the C06 safety theorems, evaluated on the dumped program:
+      -- wfProg, the boundary certificate, look-around confinement, the capture-ordering certificate
       match VM.parseProg prog with
-      | .ok p => if VM.wfProg p then r else "not-wf " ++ r
+      | .ok p =>
+        if !VM.wfProg p then "not-wf " ++ r
+        else if !(VM.Safety.checkCert p (VM.Safety.mkCert p)) then "no-boundary-cert " ++ r
+        else if !(VM.Bt.lookConfined p) then "not-look-confined " ++ r
+        else if !(VM.Safety.checkOrd p (VM.Safety.mkOrd p)) then "no-order-cert " ++ r
+        else r
       | .error _ => r
     | none => "bad-request"
   | _ => "bad-request"
